@@ -71,7 +71,7 @@ class Lifecycle:
         he, hc = self.has(env)
 
         def given(x: ast.AST) -> Optional[bool]:
-            r = self.role(env, x)
+            r = self.role_at(self._cur, env, x) if getattr(self, "_cur", None) is not None else self.role(env, x)
             return he if r == "END" else hc if r == "CANCEL" else None
 
         if isinstance(e, ast.UnaryOp) and isinstance(e.op, ast.Not):
@@ -99,10 +99,10 @@ class Lifecycle:
         if isinstance(call, ast.Call):
             for pname in callee.param_names():
                 a = self.ctx.call_arg(call, callee, pname)
-                r = self.role(env, a)
+                r = self.role_at(n, env, a)
                 if r is not None:
                     new_env.add((pname, r))
-                elif isinstance(a, ast.Tuple) and len(a.elts) == 1 and self.role(env, a.elts[0]) == "ID":
+                elif isinstance(a, ast.Tuple) and len(a.elts) == 1 and self.role_at(n, env, a.elts[0]) == "ID":
                     new_env.add((pname, "IDARGS"))
         # closure variables of nested functions keep their roles (e.g. release_callback(task_id))
         return (loc, slot, ccb, ecb, via, frozenset(new_env))
@@ -111,11 +111,27 @@ class Lifecycle:
         return after[:5] + (before[5],)
 
     # --------------------------------------------------------------- transfer
-    def _reg(self, f: FuncInfo, e: Optional[ast.AST]) -> Optional[str]:
-        p = self.ctx.eff.paths(f).of(e)
+    def _reg(self, n: Node, e: Optional[ast.AST]) -> Optional[str]:
+        p = self.ctx.path_at(n, e)  # in the caller's terms inside a spliced helper
         if p is None or "[" in p or p.count(".") != 1:
             return None
         return REG_OF_FIELD.get(field_of(p))
+
+    def role_at(self, n: Node, env: FrozenSet, e: Optional[ast.AST]) -> Optional[str]:
+        """role of expression e at step n: directly, or - for a once-bound local or a parameter of a spliced helper -
+        the role of what it stands for in the function being interpreted"""
+        if e is None:
+            return None
+        if n.env is None:
+            r = self.role(env, e)
+            if r is not None or not isinstance(e, ast.Name):
+                return r
+        fr, fenv, leaf = self.ctx.vals.trace(n.func, n.env, e)
+        if fenv is None and fr is n.root:
+            if isinstance(leaf, ast.Tuple) and len(leaf.elts) == 1 and self.role(env, leaf.elts[0]) == "ID":
+                return "IDARGS"
+            return self.role(env, leaf)
+        return None
 
     def at_node(self, ai: AbsInt, n: Node, st) -> None:
         loc = st[0]
@@ -126,11 +142,12 @@ class Lifecycle:
         loc, slot, ccb, ecb, via, env = st
         f = n.func
         a = n.ast
+        self._cur = n
         normal = lab[0] in NORMAL_KINDS
         # --- registry moves keyed by the task id
         if n.op == "call" and isinstance(a, ast.Call) and isinstance(a.func, ast.Attribute) and a.func.attr == "pop" and a.args \
-                and self.role(env, a.args[0]) == "ID":
-            r = self._reg(f, a.func.value)
+                and self.role_at(n, env, a.args[0]) == "ID":
+            r = self._reg(n, a.func.value)
             if r is not None:
                 has_default = len(a.args) > 1
                 if lab == ("x", (KEYERROR, True)):
@@ -139,8 +156,8 @@ class Lifecycle:
                     if loc == r:
                         return [("-", slot, ccb, ecb, via, env)]
                     return [st] if has_default else []
-        if n.op == "subscript" and isinstance(a, ast.Subscript) and self.role(env, a.slice) == "ID":
-            r = self._reg(f, a.value)
+        if n.op == "subscript" and isinstance(a, ast.Subscript) and self.role_at(n, env, a.slice) == "ID":
+            r = self._reg(n, a.value)
             if r is not None:
                 if lab == ("x", (KEYERROR, True)):
                     return [] if loc == r else [st]
@@ -148,22 +165,22 @@ class Lifecycle:
                     return []
         if n.op == "del" and normal:
             for t in a.targets:
-                if isinstance(t, ast.Subscript) and self.role(env, t.slice) == "ID":
-                    r = self._reg(f, t.value)
+                if isinstance(t, ast.Subscript) and self.role_at(n, env, t.slice) == "ID":
+                    r = self._reg(n, t.value)
                     if r is not None and loc == r:
                         loc = "-"
         if n.op == "assign" and normal:
             targets = a.targets if isinstance(a, ast.Assign) else [a.target]
             for t in targets:
-                if isinstance(t, ast.Subscript) and self.role(env, t.slice) == "ID":
-                    r = self._reg(f, t.value)
+                if isinstance(t, ast.Subscript) and self.role_at(n, env, t.slice) == "ID":
+                    r = self._reg(n, t.value)
                     if r is not None:
                         if loc != "-":
                             ai.event(n, f"the task is filed under {r} while still filed under {loc} (two registries at once)", st)
                         loc = r
         if n.op == "test" and isinstance(a, ast.Compare) and len(a.ops) == 1 and isinstance(a.ops[0], (ast.In, ast.NotIn)) \
-                and self.role(env, a.left) == "ID" and lab[0] in ("T", "F"):
-            r = self._reg(f, a.comparators[0])
+                and self.role_at(n, env, a.left) == "ID" and lab[0] in ("T", "F"):
+            r = self._reg(n, a.comparators[0])
             if r is not None:
                 positive = (lab[0] == "T") == isinstance(a.ops[0], ast.In)
                 if positive != (loc == r):
@@ -181,7 +198,7 @@ class Lifecycle:
                 slot = "over"
         # --- callbacks: a user-code call whose callee carries the END / CANCEL role
         if n.op == "call" and n.callee is not None and n.callee.kind == "user" and isinstance(a, ast.Call):
-            r = self.role(env, a.func)
+            r = self.role_at(n, env, a.func)
             if r in ("END", "CANCEL"):
                 self.cb_sites.append((n, r))
                 if r == "CANCEL":
@@ -200,12 +217,12 @@ class Lifecycle:
                     ecb = min(2, ecb + 1)
                 # the id handed to the callback
                 idargs = [x for x in a.args]
-                ok_id = any(isinstance(x, ast.Starred) and self.role(env, x.value) == "IDARGS" for x in idargs) or \
-                    any(self.role(env, x) == "ID" for x in idargs)
+                ok_id = any(isinstance(x, ast.Starred) and self.role_at(n, env, x.value) == "IDARGS" for x in idargs) or \
+                    any(self.role_at(n, env, x) == "ID" for x in idargs)
                 if not ok_id:
                     ai.event(n, "callback is not called with the task's id", st)
         # --- how the user coroutine ended
-        if n.op == "await" and n.awaited_user and f is self.wrapper and self.role(env, strip_cast(a.value)) == "CORO":
+        if n.op == "await" and n.awaited_user and f is self.wrapper and self.role_at(n, env, strip_cast(a.value)) == "CORO":
             if lab[0] == "c":
                 via = True
         return [(loc, slot, ccb, ecb, via, env)]
